@@ -10,14 +10,18 @@ Local Open Scope Q_scope.
 (** after one PositionManager::update_from_trade: [current] and the returned record *)
 Record ostep := mkOS { os_cur : option opos; os_exit : option oexit }.
 
-(** [CFills fills obs inst_agrees ts]:
+(** [CFills fills obs inst_agrees ts ik]:
     fills applied one by one to PositionManager::default(); [obs] = observation after each;
     [inst_agrees] = the same fills through InstrumentState::update_from_trade gave the same
     returned records and the same position.current after every fill;
     [ts] = (tear_sheet.pnl_returns.total.count, tear_sheet.pnl_returns.pnl_raw) of that
-    InstrumentState at the end (None if the tear sheet statistics panicked). *)
+    InstrumentState at the end (None if the tear sheet statistics panicked);
+    [ik] = (kind: 0 spot, 1 perpetual, 2 future, 3 option; contract size) of the instrument that
+    InstrumentState was built for - printed for the record: the position code does not read it and
+    neither does the model. *)
 Inductive case :=
-| CFills (fills : list ofill) (obs : list ostep) (inst_agrees : bool) (ts : option (N * Q)).
+| CFills (fills : list ofill) (obs : list ostep) (inst_agrees : bool) (ts : option (N * Q))
+         (ik : N * Q).
 
 (* ---- corr_b: model = implementation ---------------------------------------------------------- *)
 
@@ -33,7 +37,7 @@ Fixpoint corr_run (t : tols) (c : pm) (fs : list ofill) (os : list ostep) : bool
 
 Definition corr_b (c : case) : bool :=
   match c with
-  | CFills fs os agrees ts =>
+  | CFills fs os agrees ts _ =>
       let t := tols_of fs in
       corr_run t None fs os && agrees &&
       match ts with
@@ -157,7 +161,7 @@ Definition acc0 : acc := mkAcc 0 0 0 0 0 0 None.
 
 Definition prop_b (c : case) : bool :=
   match c with
-  | CFills fs os agrees ts =>
+  | CFills fs os agrees ts _ =>
       let t := tols_of fs in
       let r := prop_run t acc0 fs os in
       fst r && agrees &&
@@ -173,7 +177,7 @@ Definition prop_b (c : case) : bool :=
     fee >= 0 *)
 Definition wf_case (c : case) : bool :=
   match c with
-  | CFills fs _ _ _ =>
+  | CFills fs _ _ _ _ =>
       match fs with
       | [] => true
       | f0 :: _ =>
@@ -205,9 +209,9 @@ Fixpoint model_obs (c : pm) (fs : list ofill) : list ostep :=
     "the oracle is no stricter than the model" *)
 Definition model_case (c : case) : case :=
   match c with
-  | CFills fs _ _ _ =>
+  | CFills fs _ _ _ ik =>
       let xs := snd (prun (map fill_of fs)) in
-      CFills fs (model_obs None fs) true (Some (N.of_nat (length xs), this (sum_x_pnl xs)))
+      CFills fs (model_obs None fs) true (Some (N.of_nat (length xs), this (sum_x_pnl xs))) ik
   end.
 Definition oracle_accepts_model (c : case) : bool :=
   negb (wf_case c) || (prop_b (model_case c) && corr_b (model_case c)).
